@@ -481,6 +481,13 @@ static C02Ctx makeC02(bool thorough)
     addSub(seg(dh, 11, 3, 5, 6));
     addSub(seg(dh2, 10, 1, 5, 7));
     addSub(seg(dh2, 11, 3, 5, 8));
+    {
+        // unsegmented message followed by a continuation segment in one frame (while a reassembly may be open)
+        ref::FrameHdr h = dh;
+        h.seq = 11;
+        addSub(ref::buildFrame(h, {ref::mkMsg(0xFE, patt(2, 40), 0, 1, 1), ref::mkMsg(0xFE, patt(5, 41), (uint8_t) (2 << 2), 2, 2)}));
+        addSub(ref::buildFrame(h, {ref::mkMsg(0xFE, patt(2, 42), 0, 1, 1), ref::mkMsg(0xFE, patt(5, 43), (uint8_t) (3 << 2), 2, 2)}));
+    }
     addSub(seg(dh, 65535, 1, 3, 9));
     addSub(seg(dh, 0, 3, 3, 10));
     {
